@@ -4,7 +4,7 @@
    models DateModel (helper.go) and CropParamModel (cropparam.go); only statements, each closed by
    [exact lemma], and Print Assumptions. *)
 From Coq Require Import ZArith List Bool Ascii String.
-From Hermes Require Import Util Num Calendar DateModel DateProofs CropParamModel CropParamProofs C13Proofs.
+From Hermes Require Import Util Num Calendar DateModel DateProofs CropParamModel CropParamProofs SoilModel SoilProofs C13Proofs.
 Open Scope Z_scope.
 
 (* the four date formats (with any separator of length <= 1) of one civil date are read as the
@@ -43,6 +43,22 @@ Theorem C13_bbch_difference_refuted :
   exists h, read_bbch (T:=PrimFloat.float) true h <> read_bbch (T:=PrimFloat.float) false h.
 Proof. exact bbch_difference. Qed.
 
+(* soil profiles: the fixed-width reader on the fixed-width rendering of an abstract profile and the
+   CSV reader on its CSV rendering return the same SoilFileData (or the same error / the same
+   Fatal), with and without the ground-water column, for every profile whose texts fit their
+   columns and contain no comma (character-level slicing / splitting models of LoadSoil and
+   LoadSoilCSV; CSV without a bulk-density value, which the fixed-width layout cannot express) *)
+Theorem C13_soil_agree : forall (T : Type) (NT : Num T) gw p, wf_profile p ->
+  load_soil_txt (T:=T) gw (ap_sid p) (render_txt p) = load_soil_csv gw (ap_sid p) (render_csv p).
+Proof. exact (@soil_agree_lemma). Qed.
+
+(* non-vacuity of C13_soil_agree: a well-formed two-horizon profile that loads *)
+Example C13_soil_nonvacuous :
+  wf_profile sample_profile /\
+  exists sd, load_soil_txt (T:=PrimFloat.float) true (ap_sid sample_profile) (render_txt sample_profile) = Ok sd /\
+             sd_azho sd = 2 /\ sd_n sd = 20.
+Proof. exact sample_profile_loads. Qed.
+
 (* non-vacuity: a complete two-stage classic file satisfies every hypothesis of C13_crop_yaml_agree *)
 Example C13_nonvacuous :
   exists r, convert (T:=PrimFloat.float) sample_lines = Some r /\ r_nrkom r = 2 /\ r_nrentw r = 2 /\
@@ -53,3 +69,4 @@ Print Assumptions C13_dates_agree.
 Print Assumptions C13_crop_yaml_agree.
 Print Assumptions C13_bbch_in_range_suffices.
 Print Assumptions C13_bbch_difference_refuted.
+Print Assumptions C13_soil_agree.
